@@ -158,6 +158,13 @@ def fixed_battery() -> list[dict]:
         ["K", "div", [{"id": "a", "class": "k1", "data-b": "b"}, {"class": "k2", "data-a": "a", "data-c": "c"}],
          [["class_", "k3"], ["data_z", "z"], ["aria_label", "L"], ["hidden", True], ["skip", None]], [["T", "x"]]],
         ["K", "span", [{f"data-{c}": c for c in "hgfedcba"}], [[f"x{c}", c] for c in "qponmlk"], []]]})
+    # class / style values merged from several sources with REPEATED tokens (a set()-based
+    # de-duplication would order them by hash)
+    items.append({"id": "fix:attr-merge-repeats", "kind": "tree", "doc_kw": [["class", "r1 r2 r1 r3"]], "descs": [
+        ["K", "div", [{"class": "b a b c", "style": "x:1; x:1;"}, {"class": "a d zeta alpha", "style": "y:2;"}],
+         [["class_", "b e a omega"], ["style_", "x:1;"]], [["T", "x"]]],
+        ["K", "p", [{"class": "k k k j"}, {"class_": "j i k"}, {"class": "h"}], [["class_", "k"]], []],
+        ["K", "span", [{"class": " ".join(f"c{i % 7}" for i in range(20))}], [["class_", "c3 c9 c1"]], []]]})
     # texts with several serialised dependencies (the 0.6.0 ordering bug)
     P = [{"name": "zeta", "version": "1.0", "script": {"src": "z.js"}},
          {"name": "alpha", "version": "2.1", "stylesheet": [{"href": "a.css"}], "head": "<meta name='h'>"},
